@@ -112,3 +112,15 @@ def check(ctx):
     else:
         ctx.ok("T1-precheck", B.own_method("buildFramer"), "buildFramer calls assignFrameRegistry for the new framer")
     _registry.registry_binding(ctx)
+    # Clear() starts a fresh namespace by REBINDING Names: the object it replaces may be a house's own registry (the class
+    # attribute is re-pointed per house by assignRegistries), which must keep its entries
+    ctx.rule("T4-clear", "Registrar.Clear rebinds cls.Names / cls.Counter to fresh objects and never empties the current one in place")
+    cl = ctx.fn("registering", "Registrar.Clear")
+    C = FuncView(ctx, cl)
+    rebinding = [n for n in C.cfg.nodes if isinstance(n.ast, ast.Assign) and dotted(n.ast.targets[0]) == "cls.Names" and
+                 (isinstance(n.ast.value, ast.Dict) or (isinstance(n.ast.value, ast.Call) and call_name(n.ast.value) in ("dict", "odict")))]
+    inplace = [c for n, c in C.calls(("cls.Names.clear", "cls.Names.pop", "cls.Names.popitem", "cls.Names.update"))] + \
+        [n for n in C.cfg.nodes if isinstance(n.ast, ast.Delete) and "cls.Names" in src(n.ast)]
+    ctx.check(bool(rebinding) and not inplace, "T4-clear", cl, "Registrar.Clear: cls.Names = {} (rebinding), no in-place clear",
+              "clearing in place while a house's namespace is current wipes that house's registry: its live instances are "
+              "forgotten, later duplicates are accepted and automatic names collide")
